@@ -397,6 +397,7 @@ class Env:
         self.trace = []
         self.trace_start = 0  # steps before this index are preparation (hello exchange / legal prefix)
         self.stopped = False
+        self.refusals = 0
         self.case = None
 
     # -- to be provided by subclasses: victim, adv, model, build(spec) -> (bytes, facts)
@@ -416,9 +417,10 @@ class Env:
         pred = self.model.predict(t, facts) if not self.model.diverged else {"kind": "NONE"}
         obs = deliver(self.victim, self.rec, data)
         exc = obs["exc"]
-        tn = A.type_name(t) + (":" + str(spec["v"]) if spec.get("v") not in (None, "ok", 0) else "")
+        tn = A.type_name(t) + (":" + str(spec["v"]) if spec.get("v") not in (None, "ok", 0) and not isinstance(spec.get("v"), int) else "")
         st = obs["before"]
-        where = "%s:%s" % (st, tn)
+        # signatures name the mechanism: all type values without a TLS 1.3 meaning share one signature
+        where = "%s:%s" % (st, tn if t in A.TYPE_NAMES else "TYPE_OTHER")
         kind = pred["kind"]
         is_um = isinstance(exc, tls.AlertUnexpectedMessage)
         is_alert = isinstance(exc, tls.Alert)
@@ -474,8 +476,12 @@ class Env:
             res.count("accepts_checked")
             want = (CLIENT_STATE if self.side == "client" else SERVER_STATE)[pred["next"]]
             if exc is not None:
-                res.violation("legal-message-rejected:%s:%s" % (where, type(exc).__name__),
-                              "valid %s in %s raised %r" % (tn, st, exc), self.case, witness())
+                # after a refusal the adversary MACs/signs over what the victim accepted: a failure here means the
+                # refused message left a trace in the victim (transcript or other state)
+                sig = "legal-message-rejected-after-refusal" if self.refusals else "legal-message-rejected"
+                res.violation("%s:%s:%s" % (sig, where, type(exc).__name__),
+                              "valid %s in %s raised %r%s" % (tn, st, exc, " (after %d refused message(s))" % self.refusals if self.refusals else ""),
+                              self.case, witness())
                 diverged = True
             elif obs["after"] != want:
                 res.violation("wrong-transition:%s:%s" % (where, obs["after"]), "expected %s" % want, self.case, witness())
@@ -511,6 +517,7 @@ class Env:
             if is_um or kind in ("REFUSE", "SOFT_REFUSE"):
                 # refused: under policy "accepted" the adversary forgets the message, under "sent" its
                 # transcript now differs from the victim's
+                self.refusals += 1
                 if self.policy == "accepted":
                     if cp is not None:
                         self.adv.sched.restore(cp)
